@@ -18,7 +18,8 @@ ENGINE = "hypothesis"
 TECHNIQUE = "property-based idempotence testing (validate / parse_object / dump-parse-dump fixed points) over generated typed parsers"
 LEVEL_TEXT = ("Thousands of generated (parser, accepted configuration) pairs per run, from the object and the command line channel; "
               "each result must validate, re-parse as an object to a typed-equal configuration and dump to byte-identical text after a "
-              "dump/parse cycle. Exploration bounded by the type grammar.")
+              "dump/parse cycle (a dump that raises or does not re-parse fails the clause as well). Two cases in ten come from the argument-kinds "
+              "family, one from values loaded from files. Exploration bounded by the grammars.")
 LEVEL_NOTE = ("Trusted: typed_eq in vf/gen/types.py. Root causes F2, F3 and F23 (recorded for C01) also break the dump cycle and are "
               "recognised here by the same narrow input-anchored rules, under C10 signatures of their own.")
 RULE = ("case = (parser recipe, given values, channel). non-trivial = the configuration contains a converted leaf (enum member, tuple/set, "
